@@ -27,6 +27,7 @@ CONSTANTS
  Aead = TRUE
  CheckIdent = TRUE
  RelayOnce = TRUE
+ CandsGuard = TRUE
  SuspendJoin = FALSE
  JoinCacheFirst = TRUE
  AutoTimers = FALSE
